@@ -35,6 +35,13 @@ GROUPS = {
     'transformerconst': {'deal/linter/_transformer.py': ['<constants>']},
     'contractsconst': {'deal/_runtime/_contracts.py': ['<constants>'], 'deal/_runtime/_invariant.py': ['<constants>'], 'deal/_runtime/_inherit.py': ['<constants>'],
                        'deal/introspection/_extractor.py': ['<constants>'], 'deal/_runtime/_decorators.py': ['<constants>']},
+    'errsource': {'deal/_source.py': ['<file>']},
+    'records': {'deal/introspection/_wrappers.py': ['<file>']},
+    'stubfile': {'deal/linter/_stub.py': ['StubFile.__init__', 'StubFile.load', 'StubFile.dump', 'StubFile.add', 'StubFile.get', 'StubsManager.__init__', 'StubsManager.read',
+                                          'StubsManager._get_module_name', 'StubsManager.get', 'StubsManager.create', '_get_funcs']},
+    'climain': {'deal/_cli/_main.py': ['<file>'], 'deal/_cli/_common.py': ['<file>'], 'deal/__main__.py': ['<file>'], 'deal/_cli/_base.py': ['<file>']},
+    'lintmisc': {'deal/linter/_extractors/result.py': ['<file>'], 'deal/linter/_extractors/asserts.py': ['<file>'], 'deal/linter/_extractors/imports.py': ['<file>'],
+                 'deal/linter/_extractors/__init__.py': ['<file>'], 'deal/_cached_property.py': ['<file>']},
     'lintrules': {'deal/linter/_rules.py': ['<constants>', 'register', 'CheckImports.__call__', 'CheckEnsureArgs.__call__', 'CheckEnsureArgs._check', 'CheckReturns.__call__', 'CheckExamples.__call__', 'CheckAsserts.__call__'],
                   'deal/linter/_checker.py': ['<constants>', 'Checker.__init__', 'Checker.from_path']},
 }
@@ -56,6 +63,8 @@ def constants_of(tree):
 def all_defs(tree, name):
     if name == '<constants>':
         return constants_of(tree)
+    if name == '<file>':
+        return ast.unparse(tree)
     """every definition with this qualified name (overloads): unparsed, joined"""
     parts = name.split('.')
     def find(body, ps):
